@@ -611,7 +611,7 @@ func runC23(s C23Scenario) pbt.Outcome {
 			return pbt.Failf("migrator-error", "migrator.New: %v", err)
 		}
 		var rerr error
-		cr := guardedCall(120*time.Second, func() { res, rerr = m.Run() })
+		cr := guardedCall(pbt.Bound(120*time.Second), func() { res, rerr = m.Run() })
 		if cr.Hung {
 			return pbt.Failf("hang", "migrator.Run did not return within 120 s")
 		}
